@@ -166,10 +166,10 @@ Definition xhex (bs : list N) : list N := flat_map (fun b => [xhexd (b / 16); xh
 Definition xshow (w : hxworld) (l : nat) : list N :=
   match xval w l with
   | XStream d s => [83] ++ show (xunparse xfuel w d) ++ [58] ++ xhex (xdata w s)
-  | _ => show (xunparse xfuel w l)
+  | _ => show (xunparse (S xfuel) w l)
   end.
 Definition xunparse_h (w : hxworld) (l : nat) : option (list N) :=
-  if xog w l =? 0 then xunparse xfuel w l else Some (s_ref (xog w l)).
+  if xog w l =? 0 then xunparse (S xfuel) w l else Some (s_ref (xog w l)).
 
 (* everything a caller can see of party p: every object id 3..getObjectCount while the document is alive, and every
    handle that was obtained from p (also after p is gone) *)
@@ -310,21 +310,22 @@ Fixpoint xbuild (ctx : option nat) (t : xtree) (w : hxworld) : hxworld * nat :=
   end.
 
 (* ---------------------------------------------------------------- deep copy of a pure value (Copier::replace_indirect_object) *)
-Fixpoint xclone (fuel : nat) (w : hxworld) (l : nat) : hxworld * nat :=
+Fixpoint xclone (fuel : nat) (q : option nat) (og : N) (w : hxworld) (l : nat) : hxworld * nat :=
   match fuel with
-  | O => xalloc w (mkXc XNull None 0)
+  | O => xalloc w (mkXc XNull q og)
   | S f =>
     match xval w l with
     | XArr els =>
-      let (w1, acc) := fold_left (fun st e => let (w2, e') := xclone f (fst st) e in (w2, e' :: snd st)) els (w, []) in
-      xalloc w1 (mkXc (XArr (rev' acc)) None 0)
+      let (w1, acc) := fold_left (fun st e => let (w2, e') := xclone f None 0 (fst st) e in (w2, e' :: snd st)) els (w, []) in
+      xalloc w1 (mkXc (XArr (rev' acc)) q og)
     | XDict items =>
       let (w1, its) := fold_left (fun st kv => match xval (fst st) (snd kv) with
                                                | XNull => st
-                                               | _ => let (w2, e') := xclone f (fst st) (snd kv) in (w2, nmap_set (snd st) (fst kv) e')
+                                               | _ => let (w2, e') := xclone f None 0 (fst st) (snd kv) in (w2, nmap_set (snd st) (fst kv) e')
                                                end) items (w, []) in
-      xalloc w1 (mkXc (XDict its) None 0)
-    | v => xalloc w (mkXc v None 0)
+      xalloc w1 (mkXc (XDict its) q og)
+    | XStream _ _ | XReserved | XDestroyed => xalloc w (mkXc XNull q og)     (* not reached: only pure values are copied *)
+    | v => xalloc w (mkXc v q og)
     end
   end.
 
@@ -467,7 +468,7 @@ Definition xstep (a : nat) (w : hxworld) (op : xop) : hxworld * ires :=
       end
     else (w, IrSkip)
   | XoHold r h =>
-    if xroot_ok a r then
+    if xroot_ok a r && Nat.ltb a (length (xw_docs w)) then
       match xeval false a w h with Some (w1, l, _) => (xsetroot w1 r a l, IrOk) | None => (w, IrSkip) end
     else (w, IrSkip)
   | XoMakeInd h =>
@@ -554,17 +555,16 @@ Definition xstep (a : nat) (w : hxworld) (op : xop) : hxworld * ires :=
               let '(w2, src2) := if xd_imm (match xdoc w1 s with Some dvs => dvs | None => xdoc0 end) && negb (xis_buf src)
                                  then let (w2, b) := xballoc w1 (xdata w1 src) in (xsetval w2 t (XStream dd (XsBuf b)), XsBuf b)
                                  else (w1, src) in
-              let (w3, dc) := xclone xfuel w2 dd in
-              let w4 := match xget w3 dc with Some c => xset w3 dc (mkXc (xc_val c) (Some a) 0) | None => w3 end in
-              let next := xcount w4 a + 1 in
-              let (w5, l) := xalloc w4 (mkXc (XStream dc (match src2 with XsBuf b => XsBuf b | XsFile bs => XsProv bs | XsProv bs => XsProv bs end))
+              (* the new stream's dictionary belongs to a (setDictDescription); the copied items have no owner *)
+              let (w3, dc) := xclone xfuel (Some a) 0 w2 dd in
+              let next := xcount w3 a + 1 in
+              let (w5, l) := xalloc w3 (mkXc (XStream dc (match src2 with XsBuf b => XsBuf b | XsFile bs => XsProv bs | XsProv bs => XsProv bs end))
                                              (Some a) next) in
               (xsetroot (xsetcmap (xsetcache w5 a next l) a s (xog w1 t) l) r a l, IrOk)
             | _ =>
-              let (w3, l) := xclone xfuel w1 t in
-              let next := xcount w3 a + 1 in
-              let w4 := match xget w3 l with Some c => xset w3 l (mkXc (xc_val c) (Some a) next) | None => w3 end in
-              (xsetroot (xsetcmap (xsetcache w4 a next l) a s (xog w1 t) l) r a l, IrOk)
+              let next := xcount w1 a + 1 in
+              let (w3, l) := xclone xfuel (Some a) next w1 t in
+              (xsetroot (xsetcmap (xsetcache w3 a next l) a s (xog w1 t) l) r a l, IrOk)
             end
           end
         end
